@@ -492,8 +492,17 @@ WEIRD = ["§", "\t", "ä", "\x00", "\x7f", "'", "$", "@", "\\", "\"", " ", "`"
 
 def mutate_text(rng, text):
     kind = rng.choice(["delete_tok", "dup_tok", "swap_tok", "replace_tok", "char_del", "char_ins", "truncate", "random_tokens",
-                       "weird_char", "line_del", "line_dup", "indent_shift", "json_break", "deep_parens"])
+                       "weird_char", "line_del", "line_dup", "indent_shift", "json_break", "deep_parens", "huge_number", "huge_number"])
     toks = re.findall(r"\s+|[A-Za-z_][A-Za-z0-9_]*|\d+\.\d+|\d+|\"[^\"\n]*\"|==|!=|<=|>=|.", text)
+    if kind == "huge_number":
+        # a number written with thousands of digits (Python refuses to convert integers above 4300 digits), anywhere
+        # a number stands: loop limits, array lengths, expressions, struct literals; positive, negative, fraction, exponent
+        nums = [i for i, t in enumerate(toks) if re.fullmatch(r"\d+(\.\d+)?", t)]
+        big = rng.choice(["9" * 4301, "1" + "0" * 5000, "9" * 4300, "7" * 6000 + ".5", "0." + "3" * 5000, "1e99999", "1" * 4400 + "e3"])
+        if nums:
+            toks[rng.choice(nums)] = big
+            return kind, "".join(toks)
+        return kind, text.replace("End", "Loop i To %s\n        A\nEnd" % big, 1)
     if kind == "delete_tok" and toks:
         i = rng.randrange(len(toks))
         del toks[i]
